@@ -6,12 +6,15 @@ output line. Core-only; run with `lake env lean --run Driver/BreakMain.lean`
   C <orders> <from-module> <to-module>
       -> ok <diagnostic set>                       (compare.Pass.CompareModules)
   R <changes> <old tree> <new tree> <per-file orders>
-      -> ok <exit status> <diagnostic set>         (git.Compare + main.go)
+      -> ok <exit status> <diagnostic set>         (git.Compare's loop + main.go)
+  T <diff entries> <old tree> <new tree> <per-file orders>
+      -> ok <exit status> <diagnostic set>         (findChangedThrift's conversion + loop + main.go)
 
 Grammar (see ThriftVerif/Break/Text.lean): lists are `<count> item*`;
   module  = mod <path> <services: name <fn names>> <structs: name <fields: id name req type>> <other type names> <constant names>
   orders  = ord <service names> <type names> <per service: name <fn names>>
   change  = M <path> | D <path>
+  diff entry = <old path> <new path | ->
 Malformed ops, summaries that are not well-formed (duplicate keys) and orders that are not
 permutations of the keys they enumerate are answered `bad-op`.
 -/
@@ -32,35 +35,43 @@ def stepC (ts : List String) : String :=
         else "bad-op"
       | _ => "bad-op"
 
+def stepRun (cs : List Change) (ts : List String) : String :=
+  match pList pModule ts with
+  | none => "bad-op"
+  | some (old, ts) =>
+    match pList pModule ts with
+    | none => "bad-op"
+    | some (new, ts) =>
+      match pList pPathOrders ts with
+      | some (os, []) =>
+        let ordersOk := cs.all fun c =>
+          match lookupModule old c.file with
+          | none => true
+          | some m => match os.lookup c.file with
+            | none => false
+            | some o => o.validForB m
+        if old.all Module.wfB && new.all Module.wfB && ordersOk then
+          let o : Path → Orders := fun p => (os.lookup p).getD ⟨[], [], fun _ => []⟩
+          let r := run o old new cs
+          s!"ok {exitCode r} {renderSet (printed r)}"
+        else "bad-op"
+      | _ => "bad-op"
+
 def stepR (ts : List String) : String :=
   match pList pChange ts with
   | none => "bad-op"
-  | some (cs, ts) =>
-    match pList pModule ts with
-    | none => "bad-op"
-    | some (old, ts) =>
-      match pList pModule ts with
-      | none => "bad-op"
-      | some (new, ts) =>
-        match pList pPathOrders ts with
-        | some (os, []) =>
-          let ordersOk := cs.all fun c =>
-            match lookupModule old c.file with
-            | none => true
-            | some m => match os.lookup c.file with
-              | none => false
-              | some o => o.validForB m
-          if old.all Module.wfB && new.all Module.wfB && ordersOk then
-            let o : Path → Orders := fun p => (os.lookup p).getD ⟨[], [], fun _ => []⟩
-            let r := run o old new cs
-            s!"ok {exitCode r} {renderSet (printed r)}"
-          else "bad-op"
-        | _ => "bad-op"
+  | some (cs, ts) => stepRun cs ts
+
+def stepT (ts : List String) : String :=
+  match pList pDiffEntry ts with
+  | none => "bad-op"
+  | some (diff, ts) => stepRun (diff.map changeOf) ts
 
 def step (line : String) : String :=
   match (line.trimAscii.toString.splitOn " ").filter (· ≠ "") with
   | "C" :: ts => stepC ts
   | "R" :: ts => stepR ts
+  | "T" :: ts => stepT ts
   | _ => "bad-op"
 
 partial def loop (hin hout : IO.FS.Stream) : IO Unit := do
